@@ -158,3 +158,21 @@ package synchronizer
 //@   ensures [collector-inv] nodup(s.timeouts.timeouts)
 //@   modifies s.state.view, s.state.highQC, s.lastTimeout, s.timer, s.voter.lastVotedView, s.proposer.lastProposed, s.timeouts.timeouts, s.timeouts.timeouts[*], trace(added), trace(tl), trace(timeoutsent), alloc
 //@   preserves @std
+
+// ---- the two timeout rules, remote side (C08: "builds it from those messages only; the
+// resulting certificate, and with aggregate QCs enabled the aggregate certificate, verifies at
+// every honest replica"): the certificates name the view the collected timeouts were signed
+// for (all of them are for timeoutView: P1 of the collector), whatever view the collecting
+// replica itself is in, and carry exactly the collected timeouts' signatures and QCs
+// (CreateTimeoutCert / CreateAggregateQC).
+//@ func (*Simple).RemoteTimeoutRule property C08
+//@   requires s.auth != nil && s.auth.Base != nil
+//@   ensures [names-the-timed-out-view] result1 == nil ==> result0.tc != nil && result0.tc.view == timeoutView && (timeoutView != 0 ==> result0.tc.signature != nil)
+//@   ensures [only-a-timeout-certificate] result1 == nil ==> result0.qc == nil && result0.aggQC == nil
+//@   modifies alloc
+//@ func (*Aggregate).RemoteTimeoutRule property C08
+//@   requires s.auth != nil && s.auth.Base != nil
+//@   requires [distinct-senders] forall i int, j int :: {timeouts[i].ID, timeouts[j].ID} 0 <= i && i < j && j < len(timeouts) ==> timeouts[i].ID != timeouts[j].ID
+//@   ensures [names-the-timed-out-view] result1 == nil ==> result0.tc != nil && result0.tc.view == timeoutView && result0.aggQC != nil && result0.aggQC.view == timeoutView && result0.aggQC.sig != nil
+//@   ensures [attested-qcs] result1 == nil ==> (forall k int :: {timeouts[k].ID} 0 <= k && k < len(timeouts) && timeouts[k].SyncInfo.qc != nil ==> has(result0.aggQC.qcs, timeouts[k].ID) && result0.aggQC.qcs[timeouts[k].ID] == *timeouts[k].SyncInfo.qc)
+//@   modifies alloc
